@@ -107,11 +107,19 @@ for t in BT:
         a = molecule(["C", "C", "N"], [0, 0, 0], [(0, 1, t), (1, 2, BT.SINGLE)])
         R.check("MOL file round trip", f"mol {version}", {"bond type": t.name, "version": version},
                 lambda a=a, version=version: mol_cycle(a, version, may_refuse=False))
-for v in [0.0, 0.00004, 9999.9999, -999.9999, 99999.9999, -9999.9999, 99999.99996, -9999.99996, 123456.7, -99999.9]:
-    a = molecule(["C", "O"], [0, 0], [(0, 1, BT.SINGLE)], coords=[[0, 0, 0], [v, 1.0, -1.0]])
-    for version in ("V2000", "V3000"):
-        R.check("coordinate columns: round trip to 0.0001 or refused/V3000, never shifted", f"mol coord {version}", {"x": v, "version": version},
-                lambda a=a, version=version: mol_cycle(a, version))
+for v in [0.0, 0.00004, 9999.9999, -999.9999, 99999.9999, -9999.9999, 99999.99996, -9999.99996, 123456.7, -99999.9, -1200.162, 10000.5, -1000.0]:
+    for axis in range(3):
+        # the V2000 coordinate columns have no separator: a value that fills its 10 characters touches its neighbour
+        xyz = [12.5, 1.0, -1.0]
+        xyz[axis] = v
+        a = molecule(["C", "O"], [0, 0], [(0, 1, BT.SINGLE)], coords=[[0, 0, 0], xyz])
+        for version in ("V2000", "V3000", None):
+            R.check("coordinate columns: round trip to 0.0001 or refused/V3000, never shifted", f"mol coord {version}", {"xyz"[axis]: v, "version": version},
+                    lambda a=a, version=version: mol_cycle(a, version))
+    wide = molecule(["C", "O", "O"], [0, 0, 0], [(0, 1, BT.DOUBLE), (0, 2, BT.DOUBLE)], coords=[[v, v, v], [v, -1201.162, -1000.0], [-9999.5, v, 99999.5]])
+    for version in ("V2000", None):
+        R.check("coordinate columns: round trip to 0.0001 or refused/V3000, never shifted", f"mol coord {version}", {"all three columns wide": v, "version": version},
+                lambda wide=wide, version=version: mol_cycle(wide, version))
 
 
 def sdf_cycle(models, version):
